@@ -280,7 +280,8 @@ def run_solve(problem, params, x0, y0=None, solver_cls=RecSolver, clock=None, lo
             c.__enter__()
         try:
             with np.errstate(all="ignore"):
-                rec.result = solver.solve(np.array(x0, dtype=float), None if y0 is None else np.array(y0, dtype=float))
+                rec.result = solver.solve(x0 if isinstance(x0, np.ndarray) else np.array(x0, dtype=float),
+                                          None if y0 is None else (y0 if isinstance(y0, np.ndarray) else np.array(y0, dtype=float)))
         except Exception as e:  # noqa
             rec.exc = exc_info(e)
             rec.exc_obj = e
